@@ -23,8 +23,13 @@ META = {
              "hash of every height both committed, and on the next validator set, by induction on the height - under A1-A3 and the "
              "Byzantine bound stated over the signatures in their commit certificates, and hash injectivity for next validator sets; "
              "same-round agreement needs only A1 and the bound; both hypotheses are shown necessary by witnesses (an equivocating "
-             "majority makes two mirrors commit different headers). Not mechanised: the composition with the state-machine model "
-             "(that correct validators satisfy A1-A3 is C02's theorem for A1 and a hypothesis on the strategy for A2/A3); crash/restart "
+             "majority makes two mirrors commit different headers). STATE-MACHINE composition (Properties/C03Compose.v): A1 is "
+             "DISCHARGED from the round state machine model - if every vote in V under a correct key was emitted by that key's state "
+             "machine in ONE history on one action store (any events, any restarts; unforgeability stated as the predicate "
+             "V_from_machines), then A1 holds, so same-round agreement of two mirrors holds with no hypothesis on correct validators' "
+             "votes left (C03_mirrors_agree_same_round_composed); the bridge is shown necessary per key and store "
+             "(C03_A1_needs_one_store_refuted, C03_A1_from_signer_calls_refuted). A2/A3 remain hypotheses: in gordian they are "
+             "obligations of the application's consensus strategy, which the engine does not enforce. Not mechanised: crash/restart "
              "in the mirror composition; liveness is not claimed.",
     "note": "Trusted: Coq kernel; translator for math.go (cross-checked by C18); the Go harness (network scheduler, "
             "lock-respecting strategy, Byzantine signer) and the reconstruction of model traces from observed votes; Go "
@@ -242,6 +247,10 @@ def main(argv):
         # committed hash under A1-A3 and the Byzantine bound stated on the mirror's own vocabulary
         c.translate(only=["Gen/Kernel.v"])
         proved = c.prove("C03Mirror") and proved
+        # A1 discharged from the round state machine model (C02's theorems over all histories incl. restarts): the
+        # composed agreement theorems carry no hypothesis about correct validators' votes except unforgeability
+        c.translate(only=["Gen/StepSM.v"])
+        proved = c.prove("C03Compose") and proved
 
     mark("translate+prove")
     # 3. real engines
@@ -391,10 +400,18 @@ def main(argv):
         tok_sm, binary_sm = S.prepare(c)
         if binary_sm is not None:
             keep = dict(c.coverage)
-            S.run_scenarios(c, binary_sm, "c03sm", ["c08_finalize"], lambda name, evs, fl: name)
+            # ... and "contiguous increasing heights under restarts": after a restart on the same stores the real state
+            # machine resumes in the height / round the stores prescribe (c10_sm_resume: never re-enters a height whose
+            # finalization is stored), on model-walked histories with Stop/Start events and on the scripted ones
+            clauses_sm = ["c08_finalize", "c10_sm_resume"]
+            n_sm, steps_sm = (24, 40) if c.tier == "quick" else (200, 60)
+            S.walked(c, "C03", binary_sm, "c03sm", n_sm, steps_sm, clauses_sm, lambda name, evs, fl: name)
+            wk = {k: c.coverage[k] for k in ("evaluations", "traces", "event_distribution") if k in c.coverage}
+            S.run_scenarios(c, binary_sm, "c03sm", clauses_sm, lambda name, evs, fl: name)
             sc = c.coverage.get("scripted_histories")
             c.coverage.update(keep)
             c.coverage["state_machine_scripted_histories"] = sc
+            c.coverage["state_machine_walked_histories"] = wk
     if not c.replay or "batch_seed" in json.load(open(c.replay)):
         import mirrorlib
         mirrorlib.mirror_check(c, "C03", ["c01", "c06"], "C03 composition hypotheses along mirror histories", quick=(24, 40),
